@@ -18,6 +18,7 @@ type Value interface{}
 type Str struct {
 	S    string
 	Code *smt.Term
+	Num  *smt.Term // when set: the decimal rendering of this 64-bit integer term
 }
 
 type StructV struct{ F []Value }
@@ -149,6 +150,9 @@ func Zero(t types.Type) Value {
 		}
 		if u.Kind() == types.UntypedNil {
 			return Ptr{}
+		}
+		if u.Kind() == types.Invalid {
+			return Opaque{What: "unused"}
 		}
 		w, _, isInt, isFloat := basicInfo(u)
 		if isInt {
